@@ -2,6 +2,7 @@
 
 //verif:dir p2p/host/peerstore/pstoreds
 //verif:also C08 -
+//verif:also C13 -
 //verif:replace github.com/libp2p/go-libp2p/core/peer.SplitAddr vC09splitAddr
 //verif:replace github.com/multiformats/go-multiaddr.NewMultiaddrBytes vC09addrFromBytes
 //verif:hook p2p/host/peerstore/pstoreds addrsRecord.flush
